@@ -161,7 +161,7 @@ harness!(name=c12_mm_21_12, prop=C12, mode=U, kind=normal, tier=rot2, unwind=18,
 harness!(name=c12_mm_21_13, prop=C12, mode=U, kind=normal, tier=rot0, unwind=18, { mm::<2, 1, 1, 3>() });
 harness!(name=c12_mm_21_21, prop=C12, mode=U, kind=normal, tier=rot1, unwind=18, { mm::<2, 1, 2, 1>() });
 harness!(name=c12_mm_21_22, prop=C12, mode=U, kind=normal, tier=quick, unwind=18, { mm::<2, 1, 2, 2>() });
-harness!(name=c12_mm_21_23, prop=C12, mode=U, kind=normal, tier=rot2, unwind=18, { mm::<2, 1, 2, 3>() });
+harness!(name=c12_mm_21_23, prop=C12, mode=U, kind=normal, tier=quick, unwind=18, { mm::<2, 1, 2, 3>() });
 harness!(name=c12_mm_21_24, prop=C12, mode=U, kind=normal, tier=thorough, unwind=18, { mm::<2, 1, 2, 4>() });
 harness!(name=c12_bad_21_31, prop=C12, mode=U, kind=mustpanic, tier=quick, unwind=18, { bad::<2, 1, 3, 1>(0) });
 harness!(name=c12_bad_21_32, prop=C12, mode=U, kind=mustpanic, tier=quick, unwind=18, { bad::<2, 1, 3, 2>(1) });
@@ -191,7 +191,7 @@ harness!(name=c12_mm_23_11, prop=C12, mode=U, kind=normal, tier=quick, unwind=18
 harness!(name=c12_bad_23_12, prop=C12, mode=U, kind=mustpanic, tier=quick, unwind=18, { bad::<2, 3, 1, 2>(0) });
 harness!(name=c12_mm_23_13, prop=C12, mode=U, kind=normal, tier=quick, unwind=18, { mm::<2, 3, 1, 3>() });
 harness!(name=c12_bad_23_14, prop=C12, mode=U, kind=mustpanic, tier=thorough, unwind=18, { bad::<2, 3, 1, 4>(1) });
-harness!(name=c12_mm_23_21, prop=C12, mode=U, kind=normal, tier=rot2, unwind=18, { mm::<2, 3, 2, 1>() });
+harness!(name=c12_mm_23_21, prop=C12, mode=U, kind=normal, tier=quick, unwind=18, { mm::<2, 3, 2, 1>() });
 harness!(name=c12_bad_23_22, prop=C12, mode=U, kind=mustpanic, tier=quick, unwind=18, { bad::<2, 3, 2, 2>(2) });
 harness!(name=c12_mm_23_23, prop=C12, mode=U, kind=normal, tier=rot0, unwind=18, { mm::<2, 3, 2, 3>() });
 harness!(name=c12_bad_23_24, prop=C12, mode=U, kind=mustpanic, tier=thorough, unwind=18, { bad::<2, 3, 2, 4>(3) });
@@ -226,7 +226,7 @@ harness!(name=c12_bad_31_22, prop=C12, mode=U, kind=mustpanic, tier=quick, unwin
 harness!(name=c12_bad_31_23, prop=C12, mode=U, kind=mustpanic, tier=quick, unwind=18, { bad::<3, 1, 2, 3>(2) });
 harness!(name=c12_bad_31_24, prop=C12, mode=U, kind=mustpanic, tier=thorough, unwind=18, { bad::<3, 1, 2, 4>(3) });
 harness!(name=c12_mm_31_31, prop=C12, mode=U, kind=normal, tier=rot0, unwind=18, { mm::<3, 1, 3, 1>() });
-harness!(name=c12_mm_31_32, prop=C12, mode=U, kind=normal, tier=rot1, unwind=18, { mm::<3, 1, 3, 2>() });
+harness!(name=c12_mm_31_32, prop=C12, mode=U, kind=normal, tier=quick, unwind=18, { mm::<3, 1, 3, 2>() });
 harness!(name=c12_mm_31_33, prop=C12, mode=U, kind=normal, tier=quick, unwind=18, { mm::<3, 1, 3, 3>() });
 harness!(name=c12_bad_31_41, prop=C12, mode=U, kind=mustpanic, tier=thorough, unwind=18, { bad::<3, 1, 4, 1>(0) });
 harness!(name=c12_bad_31_42, prop=C12, mode=U, kind=mustpanic, tier=thorough, unwind=18, { bad::<3, 1, 4, 2>(1) });
@@ -240,7 +240,7 @@ harness!(name=c12_bad_32_21, prop=C12, mode=U, kind=mustpanic, tier=quick, unwin
 harness!(name=c12_bad_32_22, prop=C12, mode=U, kind=mustpanic, tier=quick, unwind=18, { bad::<3, 2, 2, 2>(3) });
 harness!(name=c12_bad_32_23, prop=C12, mode=U, kind=mustpanic, tier=quick, unwind=18, { bad::<3, 2, 2, 3>(0) });
 harness!(name=c12_bad_32_24, prop=C12, mode=U, kind=mustpanic, tier=thorough, unwind=18, { bad::<3, 2, 2, 4>(1) });
-harness!(name=c12_mm_32_31, prop=C12, mode=U, kind=normal, tier=rot0, unwind=18, { mm::<3, 2, 3, 1>() });
+harness!(name=c12_mm_32_31, prop=C12, mode=U, kind=normal, tier=quick, unwind=18, { mm::<3, 2, 3, 1>() });
 harness!(name=c12_mm_32_32, prop=C12, mode=U, kind=normal, tier=rot1, unwind=18, { mm::<3, 2, 3, 2>() });
 harness!(name=c12_bad_32_33, prop=C12, mode=U, kind=mustpanic, tier=quick, unwind=18, { bad::<3, 2, 3, 3>(2) });
 harness!(name=c12_bad_32_34, prop=C12, mode=U, kind=mustpanic, tier=thorough, unwind=18, { bad::<3, 2, 3, 4>(3) });
